@@ -25,8 +25,13 @@ import (
 //	zeno-verif c04 <scratch-dir> <trace> run2 - <n-seeds> <workers>
 func init() { scenarios["c04"] = c04 }
 
-func c04site(org *origin.Server, n int) []Seed {
+func c04site(org *origin.Server, n int, big bool) []Seed {
 	var seeds []Seed
+	if big {
+		// a body that takes the WARC writer a while to digest, compress and write (incompressible, 64 MiB)
+		org.Route(0, "/c04/big.bin", origin.Resp{Status: 200, Headers: map[string]string{"Content-Type": "application/octet-stream"}, BodyGen: &origin.BodyGen{Kind: "binary", Size: 64 << 20, Seed: 4}})
+		seeds = append(seeds, Seed{ID: "seed-big", Value: org.URL(0, "/c04/big.bin")})
+	}
 	for k := 0; k < n; k++ {
 		h := k % len(org.Hosts)
 		p := fmt.Sprintf("/c04/s%d", k)
@@ -65,7 +70,16 @@ func c04(args []string) error {
 	if err != nil {
 		return err
 	}
-	seeds := c04site(run.org, n)
+	bigFile := filepath.Join(dir, "big.flag")
+	big := strings.HasPrefix(mode, "big+")
+	mode = strings.TrimPrefix(mode, "big+")
+	if phase == "run1" && big {
+		os.WriteFile(bigFile, []byte("1"), 0644)
+	}
+	if _, err := os.Stat(bigFile); err == nil {
+		big = true
+	}
+	seeds := c04site(run.org, n, big)
 	run.tr.Emit(map[string]any{"ev": "c04.phase", "phase": phase, "mode": mode, "n": n})
 	if phase == "run1" {
 		b, _ := json.Marshal(run.org.Hosts)
